@@ -217,7 +217,12 @@ func (p *printer) cmd(c *ast.Cmd) {
 
 func (p *printer) simpleCmd(x *ast.SimpleCmd, redirs []*ast.Redir) (err error) {
 	var order [3]string
-	if p.cfg.Redir&Before == 0 {
+	if p.cfg.Redir&Before == 0 && len(x.Assigns) == 0 && len(redirs) != 0 && len(x.Args) != 0 && reserved(x.Args[0]) {
+		// the command name spells a reserved word: it was written behind
+		// a redirection and is a reserved word in front of it
+		order[0] = "redir"
+		order[1] = "args"
+	} else if p.cfg.Redir&Before == 0 {
 		order[0] = "assign"
 		order[1] = "args"
 		order[2] = "redir"
@@ -262,6 +267,20 @@ func (p *printer) simpleCmd(x *ast.SimpleCmd, redirs []*ast.Redir) (err error) {
 		}
 	}
 	return
+}
+
+// reserved reports whether w is spelled like a reserved word.
+func reserved(w ast.Word) bool {
+	if len(w) != 1 {
+		return false
+	}
+	if w, ok := w[0].(*ast.Lit); ok {
+		switch w.Value {
+		case "!", "{", "}", "case", "do", "done", "elif", "else", "esac", "fi", "for", "if", "in", "then", "until", "while":
+			return true
+		}
+	}
+	return false
 }
 
 func (p *printer) redir(r *ast.Redir) {
